@@ -6,7 +6,7 @@ From Coq Require Import String.
 From Coq Require Import List Arith Bool ZArith Reals Ring.
 From NV.Lib Require Import RingMat C08Base.
 From NV.Generated Require Import AffineClasses AffineClip.
-From NV.C08 Require Import Model Proofs Proofs2 Proofs3 ProofsR Clip Proofs4.
+From NV.C08 Require Import Model Proofs Proofs2 Proofs3 ProofsR Clip Proofs4 ModelFold Proofs5.
 Import ListNotations.
 Close Scope R_scope.
 Open Scope list_scope.
@@ -369,12 +369,7 @@ Theorem threshold_clips :
   (forall y, in_range th y -> (Z.abs (src_threshold x th - x) <= Z.abs (y - x))%Z) /\
   src_threshold (- x) th = (- src_threshold x th)%Z /\
   (forall y, (x <= y)%Z -> (src_threshold x th <= src_threshold y th)%Z).
-Proof.
-  intros th x Hth. destruct (threshold_spec_lemma th x Hth) as [H1 [_ [H3 H4]]].
-  split; [exact H1|]. split; [exact (threshold_fixed_iff th x Hth)|]. split; [exact H3|]. split; [exact H4|].
-  split; [intros y Hy; exact (threshold_nearest_lemma th x y Hth Hy)|].
-  split; [exact (threshold_odd_lemma th x Hth)|intros y Hy; exact (threshold_monotone_lemma th x y Hy)].
-Qed.
+Proof. exact threshold_clips_lemma. Qed.
 Print Assumptions threshold_clips.
 
 (* (18) the same on arrays of ANY length (numpy broadcasting of the scalar bound; induction on the array):
@@ -425,3 +420,65 @@ Proof.
   split; [vm_compute; reflexivity|]. split; [|vm_compute; reflexivity].
   intros H. inversion H as [|a b Ha Hb]; subst. vm_compute in Ha. destruct Ha as [_ Ha]. apply Ha. reflexivity.
 Qed.
+
+(* ---------------------------------------------------------------- compose / inv chains of any finite length (round 6) *)
+Section Chains.
+  Variable R : Type.
+  Variables (r0 r1 : R) (radd rmul rsub : R -> R -> R) (ropp : R -> R).
+  Variable rdiv : R -> R -> R.
+  Variable rneg : R -> bool.
+  Hypothesis Rth : ring_theory r0 r1 radd rmul rsub ropp (@eq R).
+  Hypothesis rdiv_mul : forall a b, b <> r0 -> rmul (rdiv a b) b = a.
+
+  Local Notation apply := (apply R r0 r1 radd rmul ropp).
+  Local Notation as_affine := (as_affine R r0 r1 radd rmul ropp).
+  Local Notation wf_t := (wf_t R r0 r1 radd rmul ropp).
+  Local Notation compose_right := (compose_right R r0 r1 radd rmul rsub ropp rdiv rneg).
+  Local Notation right_contract := (right_contract R r0 r1 radd rmul rsub ropp rdiv rneg).
+  Local Notation seq_apply := (seq_apply R r0 r1 radd rmul ropp).
+  Local Notation mat_chain := (mat_chain R r0 r1 radd rmul ropp).
+
+  (* (20) "all finite compose chains": for a chain t1.compose(t2.compose(... tn.compose(z))) of ANY length
+     (the nesting of ChainTransform.apply, n = 2 there) over any mix of the six classes, with every
+     factorisation asked of SciPy along the way satisfying its contract: no compose fails, the result is
+     well formed, its matrix is the product of the matrices and applying it to a point equals applying z,
+     then tn, ..., then t1.  By induction on the chain over compose_apply. *)
+  Theorem compose_chain_apply :
+    forall (ts : list (xf R)) (z : xf R) os, Forall wf_t ts -> wf_t z -> right_contract ts z os ->
+    exists c, compose_right ts z os = Some c /\ wf_t c /\
+              as_affine c = mat_chain ts z /\
+              forall p, length p = 3 -> apply c p = seq_apply ts (apply z p).
+  Proof. exact (compose_right_apply_lemma R r0 r1 radd rmul rsub ropp rdiv rneg Rth rdiv_mul). Qed.
+
+  (* (21) "compose/inv chains": the inverse of a whole chain (given the two-sided inverse of the chain's
+     matrix - the spl.inv oracle - and the factorisation contract of the final from_matrix44) keeps the
+     chain's class and maps sequentially transformed points back, both ways. *)
+  Theorem compose_chain_inv_apply :
+    forall (ts : list (xf R)) (z : xf R) os Minv oi, Forall wf_t ts -> wf_t z -> right_contract ts z os ->
+    wf_aff r0 r1 3 3 Minv ->
+    mm r0 radd rmul 4 Minv (mat_chain ts z) = mid r0 r1 4 ->
+    mm r0 radd rmul 4 (mat_chain ts z) Minv = mid r0 r1 4 ->
+    (forall c, compose_right ts z os = Some c -> fx_contract R r0 radd rmul (x_class c) oi Minv) ->
+    exists c ci, compose_right ts z os = Some c /\
+                 inv R r0 r1 radd rmul rsub ropp rdiv rneg c Minv oi = Some ci /\ x_class ci = x_class c /\
+                 forall p, length p = 3 ->
+                   apply ci (seq_apply ts (apply z p)) = p /\ seq_apply ts (apply z (apply ci p)) = p.
+  Proof. exact (compose_right_inv_lemma R r0 r1 radd rmul rsub ropp rdiv rneg Rth rdiv_mul). Qed.
+End Chains.
+Print Assumptions compose_chain_apply.
+Print Assumptions compose_chain_inv_apply.
+
+(* non-vacuity: Rigid2D (shift) . (Rigid (quarter turn) . Similarity (scale 2, reflected)) - a chain of
+   length 3 through two class selections (Rigid.Similarity -> Similarity, Rigid2D.Similarity -> Similarity) *)
+Example compose_chain_concrete :
+  let a := Build_xf "Rigid"%string [1; 2; 3]%Z [[0; -1; 0]; [1; 0; 0]; [0; 0; 1]]%Z [1; 1; 1]%Z zI3 true in
+  let b := Build_xf "Similarity"%string [0; 0; 5]%Z zI3 [2; 2; 2]%Z zI3 false in
+  let s := Build_xf "Rigid2D"%string [10; 20; 0]%Z zI3 [1; 1; 1]%Z zI3 true in
+  let o := Build_fx_oracle [] [] [] 2%Z in
+  option_map (fun c => (x_class c, x_direct c, zas c))
+             (compose_right Z 0%Z 1%Z Z.add Z.mul Z.sub Z.opp Z.div zneg [s; a] b [o; o])
+  = Some ("Similarity"%string, false,
+          [[0; 2; 0; 11]; [-2; 0; 0; 22]; [0; 0; -2; 8]; [0; 0; 0; 1]]%Z)
+  /\ mat_chain Z 0%Z 1%Z Z.add Z.mul Z.opp [s; a] b
+     = [[0; 2; 0; 11]; [-2; 0; 0; 22]; [0; 0; -2; 8]; [0; 0; 0; 1]]%Z.
+Proof. split; vm_compute; reflexivity. Qed.
